@@ -377,6 +377,10 @@ func checkC04(w *World, r *Report) {
 	rulePopMode(w, r, "C04", fi)
 	ruleFlushWrites(w, r, "C04")
 	ruleRenderSize(w, r, "C04")
+	ruleRowsAreLines(w, r, "C04")
+	ruleFormatExchange(w, r, "C04")
+	ruleDecorWidthAccounting(w, r, "C04")
+	ruleStateAgrees(w, r, "C04")
 }
 
 // ruleRenderSize: the width/height handed on come from the terminal size query for terminals and from
